@@ -46,6 +46,10 @@ def tasks(tier):
     for dim in (2, 3):
         ts.append(("load cases dim=%d" % dim, "run_included", dict(modname="c08", fname="run_loadcases", kwargs=dict(dim=dim), oid="C09.O3",
                                                              why="a homogeneous uniaxial / biaxial state needs the load case to prescribe exactly these unknowns")))
+    # the affine patch test prescribes an array of values per boundary: dof.apply has to put each value at the position of its unknown
+    for dim in (2, 3):
+        ts.append(("prescribed values dim=%d" % dim, "run_included", dict(modname="c08", fname="run_partition", kwargs=dict(dim=dim), oid="C09.O5", select_oid="C08.O4",
+                                                                       why="the patch test prescribes u = (H - 1) X point by point: ext0 must list each boundary value at the position of its unknown, whatever the memory layout of the value array")))
     ts.append(("characteristic curve", "run_curve_job", {}))
     # a displacement patch test prescribes every boundary unknown; on a mesh without interior points no unknown is free
     ts.append(("partitioned solve, degenerate partitions", "run_included", dict(modname="c07", fname="run_partition_edges", kwargs={}, oid="C09.O4",
@@ -239,7 +243,7 @@ def run_curve_job(col):
     finish_info(col, it)
 
 
-def run_included(col, modname, fname, kwargs, oid, why):
+def run_included(col, modname, fname, kwargs, oid, why, select_oid=None):
     from ..common import include
 
-    include(col, modname, fname, kwargs, oid, why)
+    include(col, modname, fname, kwargs, oid, why, select_oid=select_oid)
